@@ -6,17 +6,6 @@ import IrVerif.Lemmas.Extract
 namespace IrVerif.Extract
 
 mutual
-  /-- `v` is defined in `g` or in a graph nested in `g`: graph input, initializer or node output -/
-  inductive DefInG : GraphT → VId → Prop
-    | input {g : GraphT} {v : VId} : v ∈ g.inputs → DefInG g v
-    | init {g : GraphT} {v : VId} : v ∈ g.inits → DefInG g v
-    | node {g : GraphT} {n : NodeT} {v : VId} : n ∈ g.nodes → DefInN n v → DefInG g v
-  inductive DefInN : NodeT → VId → Prop
-    | out {n : NodeT} {v : VId} : v ∈ n.outputs → DefInN n v
-    | nested {n : NodeT} {b : GraphT} {v : VId} : b ∈ n.bodies → DefInG b v → DefInN n v
-end
-
-mutual
   theorem cloneG_spec : ∀ (g : GraphT) (m m' : List VId), cloneG m g = .ok m' →
       (∀ v, v ∈ m → v ∈ m') ∧ (∀ v, v ∈ m' → v ∈ m ∨ DefInG g v) ∧ (∀ v, UsedInG g v → v ∈ m') ∧
       (∀ v, v ∈ g.outputs → v ∈ m')
@@ -146,5 +135,131 @@ theorem viewInits_mem {W : World} : ∀ (vs : List VId) (m im : NameMap), viewIn
           rcases h' with h' | rfl
           · exact Or.inr h'
           · exact Or.inl List.mem_cons_self
+
+mutual
+  /-- the clone only raises its own two errors -/
+  theorem cloneG_err : ∀ (g : GraphT) (m : List VId) (e : Err), cloneG m g = .error e →
+      e = .cloneOuter ∨ e = .cloneOutput
+    | .mk gid ins inits outs ns, m, e, h => by
+      rw [cloneG] at h
+      split at h
+      · rename_i e' he; cases h; exact cloneNs_err ns _ _ he
+      · split at h
+        · cases h
+        · cases h; exact Or.inr rfl
+  theorem cloneNs_err : ∀ (ns : List NodeT) (m : List VId) (e : Err), cloneNs m ns = .error e →
+      e = .cloneOuter ∨ e = .cloneOutput
+    | [], m, e, h => by rw [cloneNs] at h; cases h
+    | n :: ns, m, e, h => by
+      rw [cloneNs] at h
+      split at h
+      · rename_i e' he; cases h; exact cloneN_err n _ _ he
+      · exact cloneNs_err ns _ _ h
+  theorem cloneN_err : ∀ (n : NodeT) (m : List VId) (e : Err), cloneN m n = .error e →
+      e = .cloneOuter ∨ e = .cloneOutput
+    | .mk ins outs bs, m, e, h => by
+      rw [cloneN] at h
+      split at h
+      · split at h
+        · rename_i e' he; cases h; exact cloneGs_err bs _ _ he
+        · cases h
+      · cases h; exact Or.inl rfl
+  theorem cloneGs_err : ∀ (gs : List GraphT) (m : List VId) (e : Err), cloneGs m gs = .error e →
+      e = .cloneOuter ∨ e = .cloneOutput
+    | [], m, e, h => by rw [cloneGs] at h; cases h
+    | g :: gs, m, e, h => by
+      rw [cloneGs] at h
+      split at h
+      · rename_i e' he; cases h; exact cloneG_err g _ _ he
+      · exact cloneGs_err gs _ _ h
+end
+
+theorem lookup_isSome_mem {m : NameMap} {nm : String} (h : (m.lookup nm).isSome = true) :
+    ∃ x, (nm, x) ∈ m := by
+  induction m with
+  | nil => simp at h
+  | cons kv t ih =>
+    obtain ⟨k, x⟩ := kv
+    by_cases hk : nm = k
+    · subst hk; exact ⟨x, List.mem_cons_self⟩
+    · have : (nm == k) = false := by simpa using hk
+      simp only [List.lookup_cons, this] at h
+      obtain ⟨y, hy⟩ := ih h
+      exact ⟨y, List.mem_cons_of_mem _ hy⟩
+
+/-- with pairwise distinct names nothing is dropped when the view's initializer dict is built -/
+theorem viewInits_complete {W : World} : ∀ (vs : List VId) (m im : NameMap), viewInits W vs m = .ok im →
+    (∀ kv, kv ∈ m → kv.1 = (W.val kv.2).name) →
+    (∀ u u', (u ∈ vs ∨ u ∈ m.map (·.2)) → (u' ∈ vs ∨ u' ∈ m.map (·.2)) →
+      (W.val u).name = (W.val u').name → u = u') →
+    (∀ x, x ∈ m.map (·.2) → x ∈ im.map (·.2)) ∧ (∀ v, v ∈ vs → v ∈ im.map (·.2))
+  | [], m, im, h, _, _ => by
+    rw [viewInits] at h; cases h
+    exact ⟨fun _ hx => hx, fun _ hv => by cases hv⟩
+  | v :: vs, m, im, h, hP, hinj => by
+    rw [viewInits] at h
+    split at h
+    · cases h
+    · split at h
+      · rename_i hlook
+        -- an entry with that name exists: it already holds `v`
+        obtain ⟨x, hx⟩ := lookup_isSome_mem hlook
+        have hxv : x = v := by
+          apply hinj x v (Or.inr (List.mem_map.mpr ⟨_, hx, rfl⟩)) (Or.inl List.mem_cons_self)
+          exact (hP _ hx).symm
+        subst hxv
+        have hmap : m.map (fun kv => if kv.1 == (W.val x).name then ((W.val x).name, x) else kv) = m := by
+          have hcongr : m.map (fun kv => if kv.1 == (W.val x).name then ((W.val x).name, x) else kv)
+              = m.map id := by
+            apply List.map_congr_left
+            intro kv hkv
+            show (if kv.1 == (W.val x).name then ((W.val x).name, x) else kv) = kv
+            by_cases hk : kv.1 = (W.val x).name
+            · have : kv.2 = x := by
+                apply hinj kv.2 x (Or.inr (List.mem_map.mpr ⟨_, hkv, rfl⟩)) (Or.inl List.mem_cons_self)
+                rw [← hP kv hkv]; exact hk
+              obtain ⟨k, y⟩ := kv
+              simp only at hk this
+              subst hk; subst this
+              simp
+            · have : (kv.1 == (W.val x).name) = false := by simpa using hk
+              simp [this]
+          rw [hcongr, List.map_id]
+        rw [hmap] at h
+        have ih := viewInits_complete vs m im h hP (fun u u' hu hu' =>
+          hinj u u' (hu.imp (List.mem_cons_of_mem _) id) (hu'.imp (List.mem_cons_of_mem _) id))
+        refine ⟨ih.1, ?_⟩
+        intro w hw
+        rcases List.mem_cons.mp hw with rfl | hw
+        · exact ih.1 w (List.mem_map.mpr ⟨_, hx, rfl⟩)
+        · exact ih.2 w hw
+      · have ih := viewInits_complete vs (m ++ [((W.val v).name, v)]) im h
+          (by
+            intro kv hkv
+            rcases List.mem_append.mp hkv with hkv | hkv
+            · exact hP kv hkv
+            · simp at hkv; subst hkv; rfl)
+          (by
+            intro u u' hu hu'
+            apply hinj u u'
+            · rcases hu with hu | hu
+              · exact Or.inl (List.mem_cons_of_mem _ hu)
+              · simp only [List.map_append, List.map_cons, List.map_nil, List.mem_append,
+                  List.mem_singleton] at hu
+                rcases hu with hu | rfl
+                · exact Or.inr hu
+                · exact Or.inl List.mem_cons_self
+            · rcases hu' with hu | hu
+              · exact Or.inl (List.mem_cons_of_mem _ hu)
+              · simp only [List.map_append, List.map_cons, List.map_nil, List.mem_append,
+                  List.mem_singleton] at hu
+                rcases hu with hu | rfl
+                · exact Or.inr hu
+                · exact Or.inl List.mem_cons_self)
+        refine ⟨fun x hx => ih.1 x (by simp [hx]), ?_⟩
+        intro w hw
+        rcases List.mem_cons.mp hw with rfl | hw
+        · exact ih.1 w (by simp)
+        · exact ih.2 w hw
 
 end IrVerif.Extract
